@@ -264,7 +264,10 @@ static void run_case(const vh::Case &cs) {
 
 int main(int argc, char **argv) {
     if (argc < 2) return 2;
+    int done = 0;
     for (auto &cs : vh::read_cases(argv[1])) {
+        // the per-case leak check scans the whole (growing) heap: ask the driver for a fresh process now and then
+        if (done++ == 400) std::_Exit(42);
         std::printf("CASE %s\n", cs.name.c_str());
         std::fflush(stdout);
         if (cs.engine == "sf") run_case(cs);
